@@ -152,7 +152,37 @@ pub struct RunResult {
     pub ledger: Option<(u64, u64, u64, u64)>,
 }
 
+pub static CASE_STARTED_MS: std::sync::atomic::AtomicU64 = std::sync::atomic::AtomicU64::new(0);
+pub static CURRENT_CASE: std::sync::Mutex<String> = std::sync::Mutex::new(String::new());
+
+fn now_ms() -> u64 {
+    std::time::SystemTime::now().duration_since(std::time::UNIX_EPOCH).map(|d| d.as_millis() as u64).unwrap_or(0)
+}
+
+/// a case that does not finish within the limit is reported as a hang (exit code 4)
+pub fn start_watchdog(limit_ms: u64) {
+    std::thread::spawn(move || loop {
+        std::thread::sleep(std::time::Duration::from_millis(250));
+        let st = CASE_STARTED_MS.load(Ordering::SeqCst);
+        if st != 0 && now_ms().saturating_sub(st) > limit_ms {
+            let c = CURRENT_CASE.lock().map(|g| g.clone()).unwrap_or_default();
+            println!("HANG\t{}", c);
+            use std::io::Write;
+            std::io::stdout().flush().ok();
+            std::process::exit(4);
+        }
+    });
+}
+
 pub fn run_case(c: &Case) -> RunResult {
+    *CURRENT_CASE.lock().unwrap() = c.enc();
+    CASE_STARTED_MS.store(now_ms(), Ordering::SeqCst);
+    let r = run_case_inner(c);
+    CASE_STARTED_MS.store(0, Ordering::SeqCst);
+    r
+}
+
+fn run_case_inner(c: &Case) -> RunResult {
     rec::begin_case();
     exec::CALLS.store(0, Ordering::SeqCst);
     exec::CONSUMED.store(0, Ordering::SeqCst);
@@ -185,7 +215,7 @@ pub fn run_case(c: &Case) -> RunResult {
             c.input.iter().map(|x| crate::canary::Canary::new(*x)).collect::<Vec<_>>().into_iter().filter(keep as fn(&crate::canary::Canary) -> bool),
             &mut ctx,
         ),
-        k => chains::run_chain_iter(&kinds, InstrIter { data: c.input.clone(), pos: 0, exact: k == 'k' }, &mut ctx),
+        k => chains::run_chain_iter(&kinds, InstrIter { data: c.input.clone(), pos: 0, exact: k == 'k', endless: k == 'e' }, &mut ctx),
     }));
     let wall_us = t0.elapsed().as_micros();
     let granted = rec::sched_off();
